@@ -12,13 +12,16 @@ package v2
 // added leaves the state digest unchanged.
 
 import (
+	"bytes"
 	"context"
 	"crypto"
 	"crypto/sha256"
+	"encoding/base64"
 	"encoding/hex"
 	"encoding/json"
 	"errors"
 	"fmt"
+	"io"
 	"path/filepath"
 	"sort"
 	"strings"
@@ -39,13 +42,20 @@ import (
 	"github.com/nuts-foundation/nuts-node/network/transport"
 	"github.com/nuts-foundation/nuts-node/network/transport/grpc"
 	"github.com/nuts-foundation/nuts-node/vdr/resolver"
+	"github.com/sirupsen/logrus"
 	"google.golang.org/protobuf/proto"
 	"pgregory.net/rapid"
 	"verif.local/h"
 	"verif.local/h/c19x"
+	"verif.local/h/jsonmut"
 )
 
 var _ = ssi.URI{}
+
+func init() {
+	// keep the logs small: the handlers log every rejected message
+	logrus.SetOutput(io.Discard)
+}
 
 // ---------------------------------------------------------------------------------------------------------------------
 // case
@@ -138,11 +148,11 @@ func c19GenStep(t *rapid.T, i int) c19Step {
 			Muts:    c19x.GenByteMuts(t, l+".iblt.m"),
 		}
 	case "txlist":
-		s.Conv = rapid.SampledFrom([]string{"lq", "lq", "lq", "rq", "rq", "state", "none", "random"}).Draw(t, l+".conv")
+		s.Conv = rapid.SampledFrom([]string{"lq", "lq", "rq", "rq", "rq", "rq", "state", "none", "random"}).Draw(t, l+".conv")
 		n := rapid.IntRange(0, 4).Draw(t, l+".ntx")
 		for k := 0; k < n; k++ {
 			ts := c19TxSpec{
-				From:    rapid.SampledFrom([]string{"pending", "pending", "base", "mutated", "mutated", "mutated"}).Draw(t, l+".from"),
+				From:    rapid.SampledFrom([]string{"pending", "pending", "pending", "base", "mutated", "mutated", "mutated", "badprev", "badlc", "badsig", "badkid", "bigpal"}).Draw(t, l+".from"),
 				I:       rapid.Uint32Range(0, 15).Draw(t, l+".txi"),
 				Payload: rapid.SampledFrom([]string{"right", "right", "right", "wrong", "empty", "absent"}).Draw(t, l+".payload"),
 			}
@@ -167,7 +177,7 @@ func c19GenStep(t *rapid.T, i int) c19Step {
 	case "diagnostics":
 		n := rapid.IntRange(0, 3).Draw(t, l+".nstr")
 		for k := 0; k < n; k++ {
-			s.Strs = append(s.Strs, rapid.SampledFrom([]string{"", "peer", "\x00", strings.Repeat("A", 5000), "\xff\xfe", "did:nuts:x"}).Draw(t, l+".str"))
+			s.Strs = append(s.Strs, rapid.SampledFrom([]string{"", "peer", "\x00", strings.Repeat("A", 5000), "\u00ff\ufffe", "did:nuts:x"}).Draw(t, l+".str"))
 		}
 	}
 	if rapid.IntRange(0, 5).Draw(t, l+".hasraw") == 0 {
@@ -448,8 +458,33 @@ func (f *c19Fix) tx(ts c19TxSpec) *Transaction {
 	if ts.From == "mutated" && ts.Plan != nil {
 		hdr, pl, _, err := c19x.SplitCompact(string(src.Data()))
 		f.x.NoErr(err, "split valid transaction")
-		mh, _ := ts.Plan.Apply(hdr)
-		out.Data = []byte(c19x.Compact(mh, pl, ts.Sig))
+		mh, ap := ts.Plan.Apply(hdr)
+		if !ap.Oversize { // gRPC refuses larger messages
+			out.Data = []byte(c19x.Compact(mh, pl, ts.Sig))
+		}
+	}
+	if sem := ts.From; sem == "badprev" || sem == "badlc" || sem == "badsig" || sem == "badkid" || sem == "bigpal" {
+		// parseable transactions the verifiers must reject (or, for bigpal, private transactions with hostile PAL bytes)
+		hdr, pl, _, err := c19x.SplitCompact(string(src.Data()))
+		f.x.NoErr(err, "split valid transaction")
+		doc, err := jsonmut.Decode(hdr)
+		f.x.NoErr(err, "decode header")
+		m := doc.(map[string]any)
+		sig := c19x.SigValid
+		switch sem {
+		case "badprev":
+			m["prevs"] = []any{hash.SHA256Sum([]byte{byte(ts.I)}).String()}
+		case "badlc":
+			m["lc"] = json.Number(fmt.Sprint(c19Clocks[int(ts.I)%len(c19Clocks)]))
+		case "badsig":
+			sig = c19x.SigGarbage
+		case "badkid":
+			delete(m, "jwk")
+			m["kid"] = "did:nuts:unknown#key"
+		case "bigpal":
+			m["pal"] = []any{"", "AAEC", base64.StdEncoding.EncodeToString(bytes.Repeat([]byte{4}, 65+int(ts.I)*7)), base64.StdEncoding.EncodeToString(bytes.Repeat([]byte{0xff}, 200))}
+		}
+		out.Data = []byte(c19x.Compact(jsonmut.Encode(m), pl, sig))
 	}
 	switch ts.Payload {
 	case "right":
@@ -643,6 +678,18 @@ func c19V2Run(x *h.Ctx, c c19V2Case) {
 			outcome = "error"
 		}
 		x.Classf("%s:%s", kind, outcome)
+		if herr != nil && (kind == "TransactionList" || kind == "TransactionSet" || kind == "TransactionPayload") {
+			cat := "other"
+			for _, k := range []string{"unknown or expired conversation", "non-requested transaction", "not within the requested range", "received transaction is invalid", "did not provide payload",
+				"unable to add received transaction", "checking wrong envelope type", "LCReq is not equal", "invalid data length", "number of buckets do not match", "decode loop", "non-existing transaction",
+				"doesn't match payload hash", "missing transaction reference", "does not have transaction payload"} {
+				if strings.Contains(herr.Error(), k) {
+					cat = k
+					break
+				}
+			}
+			x.Classf("%s:error:%s", kind, cat)
+		}
 		if kind == "TransactionList" && len(refsAfter) > len(refsBefore) {
 			x.Class("TransactionList:added-transactions")
 		}
